@@ -23,3 +23,13 @@ Example C05_examples : let s := run_doc "xhtml" 0 ".Ch C
 .Sx lab
 " in quiet s = true /\ occurs "id=""s2""" (out_of s) = 1%nat /\ occurs "href=""#s2""" (out_of s) = 2%nat.
 Proof. vm_compute. repeat split; reflexivity. Qed.
+
+(* in the sub-language of Proofs/FragH.v (text, inline markup, .P, display blocks, headers, .Tc): the entries the tables of
+   contents are written from are numbered 1, 2, ... in document order and the i-th refers to "#s<i>" - the anchor the
+   i-th header element gets in pass 2 (id="s<i>", Proofs/FragH.macro_header_pass2) - so every table-of-contents link
+   has exactly one target and different entries have different targets *)
+Require FragH TocStr.
+Theorem C05_toc_entries_refer_to_their_header_partial : forall fuel wd main bs, Forall FragH.in_fragH bs ->
+  let s := snd (compile (S fuel) (R "xhtml") 0 wd main bs) in
+  Forall TocStr.entry_ok (lox_toc s) /\ FragH.refs_ok (lox_toc s).
+Proof. intros fuel wd main bs H. exact (proj2 (proj2 (proj2 (FragH.C02_headers_balanced fuel wd main bs H)))). Qed.
